@@ -69,26 +69,28 @@ def design_jobs(quick):
     J.append(("TCPMailbox 1 sender deep", "TCPMailbox", tcp_consts(MaxSeq=3 if quick else 5), TCP_INV, None, 3))
     J.append(("TCPMailbox 2 senders", "TCPMailbox",
               tcp_consts(NS=2, MaxSeq=2, MaxRd=2 if not quick else 1, MaxConn=2 if not quick else 1), TCP_INV, None, 4))
-    variants = [("pubpre", "AllOrNothing"), ("abortappend", "RedeliverFirst")]
+    variants = [("pubpre", "AllOrNothing")]
     if not quick:
-        variants += [("noreset", "AllOrNothing"), ("partial", "NoLossAtRest"), ("abortlose", "RedeliverFirst"),
-                     ("lenover", "LenBound")]
+        variants += [("abortappend", "RedeliverFirst"), ("noreset", "AllOrNothing"), ("partial", "NoLossAtRest"),
+                     ("abortlose", "RedeliverFirst"), ("lenover", "LenBound")]
     for v, inv in variants:
         J.append(("TCPMailbox variant %s (must be rejected)" % v, "TCPMailbox", tcp_consts(Variant=v), TCP_INV, inv, 2))
     if not quick:
         J.append(("TCPMailbox commit time-out + resend (outside the statement; duplicate expected)", "TCPMailbox",
                   tcp_consts(CommitTO=True), TCP_INV, "FIFO", 2))
     # relaxed mailbox
-    J.append(("RelaxedMailbox no write time-out, 2 senders", "RelaxedMailbox",
-              rlx_consts(NS=2, SockCap=9, MaxSeq=2 if quick else 3, MaxConn=2, Redial="immediate"), RLX_INV, None, 3))
+    if not quick:
+        J.append(("RelaxedMailbox no write time-out, 2 senders", "RelaxedMailbox",
+                  rlx_consts(NS=2, SockCap=9, MaxSeq=3, MaxConn=2, Redial="immediate"), RLX_INV, None, 3))
     J.append(("RelaxedMailbox write time-out, re-dial after drain (fixed protocol)", "RelaxedMailbox",
               rlx_consts(MaxSeq=5 if quick else 7, MaxConn=3 if quick else 4), RLX_INV, None, 3))
     J.append(("RelaxedMailbox write time-out, immediate re-dial (pinned protocol; reordering expected)",
               "RelaxedMailbox", rlx_consts(MaxConn=2, Redial="immediate"), RLX_INV, "FIFO", 2))
     # channels
     J.append(("Chan 2 senders", "Chan", chn_consts(MaxSeq=2 if quick else 3), CHN_INV, None, 3))
-    J.append(("Chan variant early (OutputChan delivering before commit; must be rejected)", "Chan",
-              chn_consts(NS=1, Variant="early"), CHN_INV, "AllOrNothing", 2))
+    if not quick:
+        J.append(("Chan variant early (OutputChan delivering before commit; must be rejected)", "Chan",
+                  chn_consts(NS=1, Variant="early"), CHN_INV, "AllOrNothing", 2))
     return J
 
 
@@ -146,7 +148,7 @@ def to_case(fl, ns, cap, cmds, cid, custom=False, rt=150, wt=150):
             "cap": cap + 2 if fl == "chan" else cap, "cmds": out, "exp": exp, "rt": rt, "wt": wt}
 
 
-def generate(chk, work, fl, ns, cap, num, depth, seed):
+def generate(chk, work, fl, ns, cap, num, depth, seed, keep):
     module, cf, inv = GEN[fl]
     w = os.path.join(chk.tmp, "gen-%s-%d-%d" % (fl, ns, cap))
     V.copy_specs(work, w)
@@ -166,7 +168,21 @@ def generate(chk, work, fl, ns, cap, num, depth, seed):
             continue
         seen.add(key)
         cases.append(to_case(fl, ns, cap, cmds, "%s-n%d-c%d-%s" % (fl, ns, cap, f)))
-    return cases
+    # keep the behaviours that exercise the rare corners (time-outs with a parked handler, veto after a
+    # successful handshake, dial failure, long backlog) and a seeded sample of the others
+    def rarity(c):
+        n = 0
+        for cmd, e in zip(c["cmds"], c["exp"]):
+            if (cmd["op"] in "CV" and e == "t") or (cmd["op"] == "LN" and e not in ("0", "1")):
+                n += 3
+            elif e in ("v", "fail"):
+                n += 1
+        return n
+    cases.sort(key=lambda c: (-rarity(c), c["case"]))
+    rare = [c for c in cases if rarity(c) >= 3][: keep // 2]
+    rest = [c for c in cases if c not in rare]
+    random.Random(seed).shuffle(rest)
+    return rare + rest[: keep - len(rare)]
 
 
 # --------------------------------------------------------------------------- other case families
@@ -247,7 +263,7 @@ def run(chk):
             write_cfg(os.path.join(w, "MC.cfg"), consts, inv)
             return job, V.tlc(w, module, cfg="MC.cfg", workers=workers, timeout=900 if quick else 2400, deadlock=False)
 
-        with concurrent.futures.ThreadPoolExecutor(max_workers=4 if quick else 5) as ex:
+        with concurrent.futures.ThreadPoolExecutor(max_workers=8) as ex:
             results = list(ex.map(one, jobs))
         rejected = []
         for (name, module, consts, inv, expect, workers), res in results:
@@ -267,11 +283,13 @@ def run(chk):
         plan = [("tcp", 2, 1), ("tcp", 1, 1), ("relaxed", 2, 1), ("chan", 2, 1)]
         if not quick:
             plan += [("tcp", 3, 2), ("tcp", 2, 2), ("relaxed", 1, 2), ("chan", 3, 2)]
-        num = {"tcp": 70, "relaxed": 30, "chan": 30} if quick else {"tcp": 500, "relaxed": 220, "chan": 220}
+        plan = [("tcp", 2, 1), ("relaxed", 2, 1), ("chan", 2, 1)] if quick else plan
+        num = {"tcp": 700, "relaxed": 200, "chan": 200} if quick else {"tcp": 3000, "relaxed": 1000, "chan": 1000}
+        keep = {"tcp": 110, "relaxed": 30, "chan": 30} if quick else {"tcp": 500, "relaxed": 220, "chan": 220}
 
         def gen(p):
             fl, ns, cap = p
-            return generate(chk, work, fl, ns, cap, num[fl], 60 if quick else 90, chk.seed * 31 + ns * 7 + cap)
+            return generate(chk, work, fl, ns, cap, num[fl], 60 if quick else 90, chk.seed * 31 + ns * 7 + cap, keep[fl])
 
         with concurrent.futures.ThreadPoolExecutor(max_workers=4) as ex:
             sched = [c for cs in ex.map(gen, plan) for c in cs]
@@ -314,7 +332,7 @@ def run(chk):
         for e in s:
             if e.get("e") == "res" and e.get("exp", "") != "":
                 compared += 1
-                if e["got"] != e["exp"]:
+                if e["got"] != e["exp"] and not (e["op"] == "V" and e["got"] == "v" and e["exp"] == "t"):
                     drift_cases += 1
                     if len(chk.drift) < 12:
                         chk.drift.append({"case": cid, "command": e["i"], "op": e["op"], "node": e["n"],
